@@ -165,6 +165,7 @@ class Sched:
         self.timers_adversarial = timers_adversarial
         self.observers = []           # callables run at every yield point (oracle sampling)
         self.atomic = 0               # >0: inside an atomic section of a virtual primitive (no switching)
+        self.keep_log = True          # False: do not retain events (the log keeps every logged object alive)
         self.error = None
 
     # -- identity ------------------------------------------------------------------------------
@@ -181,6 +182,8 @@ class Sched:
 
     # -- log -----------------------------------------------------------------------------------
     def ev(self, op, obj='', val=None):
+        if not self.keep_log:
+            return
         t = self.me()
         self.log.append((t.name if t else '?', op, obj, val))
 
